@@ -6077,8 +6077,11 @@ memory_cast = getattr(memoryview, "cast", lambda *x: x[0])
 
 
 def modified_base64(s):
-    s_utf7 = s.encode("utf-7")
-    return s_utf7[1:-1].replace(b"/", b",")
+    # Unpadded base64 of the UTF-16BE form: what the "utf-7" codec produces
+    # for the characters it does not pass through unencoded (TAB, CR and LF
+    # it does pass through, and they have to be encoded here).
+    s_utf16 = s.encode("utf-16-be")
+    return binascii.b2a_base64(s_utf16).rstrip(b"\n=").replace(b"/", b",")
 
 
 def modified_unbase64(s):
